@@ -83,6 +83,27 @@ def _cases_core(rng, tier):
         for cmds in ([big], [0x76, big], [big, 0xac], [bytes(20), big, bytes(33)], [bytes(520), big], [big, big]):
             yield "scr_raw " + _cmds_str(cmds), "oversize-element"
             yield "scr_ser " + _cmds_str(cmds), "oversize-element-ser"
+    # scripts of the STANDARD TEMPLATE shapes with arbitrary (unsorted, repeated, mixed-length) data: bare multisig
+    # m-of-n, pay-to-pubkey, P2PKH / P2SH / witness programs, OP_RETURN data, time locks — the wire bytes are those of
+    # the command list as given, element by element, in the order given
+    def _key(compressed=True):
+        return (bytes([rng.choice([2, 3])]) + bytes(rng.getrandbits(8) for _ in range(32))) if compressed else \
+            (b"\x04" + bytes(rng.getrandbits(8) for _ in range(64)))
+    for _ in range(6 if tier == "quick" else 200):
+        n_ = rng.randint(1, 5)
+        m_ = rng.randint(1, n_)
+        keys_ = [_key(rng.random() < 0.8) for _ in range(n_)]
+        for ks in (keys_, sorted(keys_), sorted(keys_, reverse=True), keys_[:1] * n_):
+            cmds = [0x50 + m_] + ks + [0x50 + n_, 0xae]
+            yield "scr_raw " + _cmds_str(cmds), "template-multisig"
+            yield "scr_ser " + _cmds_str(cmds), "template-multisig-ser"
+        h20, h32 = bytes(rng.getrandbits(8) for _ in range(20)), bytes(rng.getrandbits(8) for _ in range(32))
+        for cmds in ([_key(), 0xac], [_key(False), 0xac], [0x76, 0xa9, h20, 0x88, 0xac], [0xa9, h20, 0x87], [0, h20], [0, h32],
+                     [0x51, h32], [0x6a, bytes(rng.getrandbits(8) for _ in range(rng.choice([1, 40, 80])))],
+                     [bytes([rng.randrange(1, 255), rng.randrange(256), rng.randrange(128)]), 0xb1, 0x75] + [_key(), 0xac],
+                     [0x63, _key(), 0xac, 0x67, bytes([7, 0]), 0xb2, 0x75, _key(), 0xac, 0x68]):
+            yield "scr_raw " + _cmds_str(cmds), "template-standard"
+            yield "scr_ser " + _cmds_str(cmds), "template-standard-ser"
     for b in range(0, 300):
         yield "scr_raw o%d" % b, "opcode-exhaustive"
     for n in BOUNDS:
